@@ -91,6 +91,9 @@ def realnum(v):
     return Fraction(v)
 
 
+def held(lock): return True     # lock discipline clauses are VC-only
+def last(log): return log[-1]
+def nth(rec, j, *a): return rec[j]
 def unchanged(field): return True    # heap frame clauses are VC-only
 def has_dyn(obj, name): return hasattr(obj, name)
 def is_prefix(a, b): return list(b[:len(a)]) == list(a)
